@@ -1017,7 +1017,7 @@ func main() {
 	run = vx.Start("C19")
 	maxLen, seeds := 6, 1<<9
 	if !run.Quick() {
-		maxLen, seeds = 7, 1<<13
+		maxLen, seeds = 8, 1<<13
 	}
 	inputs := seqs(3, maxLen)
 	// longer, structured inputs (lengths the exhaustive part cannot reach)
